@@ -333,3 +333,21 @@ v("c18-lowerbound-partial-cache", {"C18"}, ("flowpaths/minflowdecompcycles.py", 
 v("c06-tolerance-unit-float64-only", {"C06"}, ("flowpaths/utils/safetyflowdecomp.py", "max([Fraction(math.ulp(float(max(abs(value) for value in bound_values))))] + narrow_spacings)", "Fraction(math.ulp(float(max(abs(value) for value in bound_values))))", 1))
 v("c17-flow-width-raw-capacity", {"C17"}, (SDAG, "            if isinstance(edge_capacity, numbers.Integral):\n                edge_capacity = int(edge_capacity)\n", "", 1))
 v("c04-cap-min-instead-of-one", {"C04", "C08"}, ("flowpaths/abstractwalkmodeldigraph.py", "                self.edge_upper_bounds[edge] = 1\n", "                self.edge_upper_bounds[edge] = min(1, self.edge_upper_bounds[edge])\n", 1))
+
+# --- round-7 seeds: rules added / refined in DESIGN 12.4
+_SUBL = "                temp_G[path[i]][path[i + 1]][flow_attr] = temp_G[path[i]][path[i + 1]][flow_attr] - bottleneck\n"
+v("c01-peel-removes-saturated-node", {"C01", "C17", "C02"}, (SDAG, "            paths.append(path)\n            weights.append(bottleneck)\n",
+  "            temp_G.remove_nodes_from([n for n in path if temp_G.degree(n) == 0])\n            paths.append(path)\n            weights.append(bottleneck)\n", 1))
+v("c17-peel-subtraction-under-if", {"C17", "C02"}, (SDAG, _SUBL, "                if temp_G[path[i]][path[i + 1]][flow_attr] > bottleneck:\n    " + _SUBL, 1))
+v("c17-peel-continue-before-subtraction", {"C17", "C02"}, (SDAG, _SUBL, "                if path[i] == path[i + 1]:\n                    continue\n" + _SUBL, 1))
+v("benign-peel-log-after-subtraction", B, (SDAG, _SUBL, _SUBL + "                if temp_G[path[i]][path[i + 1]][flow_attr] < 0:\n                    utils.logger.debug(\"negative residue\")\n", 1))
+v("c10-7a-sum-over-list-len-over-set", {"C10"}, (AW, "for e in constraint_as_set)", "for e in self.subset_constraints[j])", 1))
+v("benign-7a-set-named-differently", B, (AW, "                constraint_as_set = set(self.subset_constraints[j])\n                constraint_length = len(constraint_as_set)\n",
+  "                distinct_edges = set(self.subset_constraints[j])\n                constraint_length = len(distinct_edges)\n", 1), (AW, "for e in constraint_as_set)", "for e in distinct_edges)", 1))
+v("c15-k-range-min-of-partition-sizes", {"C15"}, (MGS, "extra_for_partitions = sum(len(constraint) - 1 for constraint in (self.partition_constraints or []))",
+  "extra_for_partitions = min((len(constraint) - 1 for constraint in (self.partition_constraints or [])), default=0)", 1))
+v("c07-ignored-cap-max-of-caps", {"C07", "C04", "C08"}, (KLAEC, "ignored_edge_bound = self.G.number_of_edges() + math.ceil(sum(\n            bound for edge, bound in edge_repetition_bounds.items() if edge not in self.edges_to_ignore\n        ))",
+  "ignored_edge_bound = self.G.number_of_edges() + math.ceil(max(\n            [bound for edge, bound in edge_repetition_bounds.items() if edge not in self.edges_to_ignore] + [0]\n        ))", 1))
+v("benign-read-graph-edge-view-membership", B, (GU, "            if not G.has_edge(u, v):", "            if (u, v) not in G.edges():", 1))
+v("c20-constraint-node-membership", {"C20"}, (GU, "            if not G.has_edge(u, v):", "            if u not in G or v not in G:", 1))
+v("c05-greedy-threshold-floor", {"C05", "C03", "C10"}, (KFD, "                    constraint_length = len(subpath)\n", "                    constraint_length = len(subpath) - 1\n", 1))
